@@ -145,6 +145,11 @@ def to_tfrecord(saved_data_description: list[Attribute],
 
         # Set feature value
         if attribute.dtype in ["int8", "uint8", "int32", "int64"]:
+            # An Int64List silently drops values which are not integers
+            # (resulting in a record which cannot be parsed).
+            if not np.can_cast(value.dtype, np.int64, casting="safe"):
+                raise ValueError(f"Cannot cast value of dtype {value.dtype} "
+                                 f"passed as {attribute.name} to int64.")
             feature[attribute.name] = int64_feature(values[attribute.name])
         elif attribute.dtype == "float16":
             value = value.astype(dtype=np.float16)
